@@ -357,7 +357,7 @@ func TestC16(t *testing.T) {
 	defer r.Flush()
 	if r.Lane == 3%r.Lanes {
 		// the engine behind a types.HttpServer listening itself: HTTP/1.1, HTTP/2 (TLS) and HTTP/3 (QUIC) on loopback
-		defer netLanes(r, r.N(4, 64))
+		netLanes(r, r.N(4, 64))
 	}
 	r.Rule("PRNG polling/JSONP sessions: revision x b64 x Accept-Encoding (each coding, lists, q-values, identity, *, look-alike tokens, codings spelled in other cases) x threshold x arbitrary j strings x batches of hostile text (quotes, backslashes, CR/LF, U+2028/2029, </script>, <!--) and binary packets with per-packet compress options; every raw poll response recorded by the wrapping handler is decoded (content coding as RFC 9110, JSONP by a strict JS-string scanner, payload by the reference codec) and matched against the batches of the flush events (packet identity from packetCreate); headers checked against body; distinct = configuration/batch-shape signature")
 	r.Assume("a response may stay uncompressed even when compression would be allowed: the statement only restricts when a coding may be applied")
